@@ -48,7 +48,7 @@ CHECKS["C10"] = {
     "text": "Proof of the FULL statement for every object tree (after the repair of F4, /repo commit d5c3335): with pairwise distinct ids, naming always "
             "succeeds (the free-name search terminates: pigeonhole over injective decimal suffixes), all names are pairwise distinct, ids are used verbatim and "
             "generated names (class-derived prefix + decimal counter) differ from every id (C10_unique); duplicate ids are diagnosed exactly when they exist "
-            "(C10_dup_id_rejected); the same generator serves header function names (C10_generate). Tie: names in the real .ui (objects identified by a marker "
+            "(C10_dup_id_rejected); a reference spelled with an id denotes exactly one declared name, the object carrying that id (C10_reference_denotes_exactly_one_object); the same generator serves header function names (C10_generate). Tie: names in the real .ui (objects identified by a marker "
             "property) vs the model on generated trees with adversarial ids/classes; the real output is additionally judged directly: names pairwise distinct, "
             "ids verbatim, every <addaction> reference denotes exactly one declared object.",
     "technique": "Coq proof (pigeonhole + injectivity of decimal printing from DecimalString/DecimalNat; induction over the flattened tree); differential execution through the real pipeline",
